@@ -626,6 +626,285 @@ def run_vfw(ctx, cfg):
         ctx.count('auto_kind=%s' % k)
 
 
+
+# --------------------------------------------------------------------------- route lookup (corrprod_to_autocorr as called)
+ERR_NAMES = {1: 'KeyError', 2: 'ValueError', 3: 'TypeError', 4: 'AssertionError'}
+
+
+def gen_lookup(rng):
+    """product lists of every size class: empty, singleton, a few, and > 255 / > 65535-index lists (the narrowed
+    dtype changes), duplicated autos, unsorted, occasionally a missing auto."""
+    kind = rng.choice(['empty', 'single', 'small', 'small', 'u16', 'u16', 'u16edge', 'big'])
+    if kind == 'empty':
+        return dict(route='lookup', kind=kind, n_labels=0, cps=[])
+    if kind == 'single':
+        return dict(route='lookup', kind=kind, n_labels=2, cps=[rng.choice([[0, 0], [0, 1]])])
+    if kind == 'small':
+        labels, cps, info = gen_cps(rng)
+        return dict(route='lookup', kind=kind, n_labels=len(labels), cps=cps)
+    n = {'u16': rng.randint(250, 330), 'u16edge': rng.choice([255, 256, 257]), 'big': rng.randint(700, 900)}[kind]
+    autos = [[i, i] for i in range(n)]
+    cross = [[rng.randrange(n), rng.randrange(n)] for _ in range(rng.randint(0, 40))]
+    cps = autos + cross + [list(rng.choice(autos)) for _ in range(rng.randint(0, 3))]
+    if kind != 'u16edge' or rng.random() < 0.5:
+        rng.shuffle(cps)
+    if rng.random() < 0.1:
+        victim = rng.randrange(n)
+        cps = [c for c in cps if c != [victim, victim]]
+    return dict(route='lookup', kind=kind, n_labels=n, cps=cps)
+
+
+def run_lookup(ctx, cfg):
+    from katdal.vis_flags_weights import corrprod_to_autocorr
+    cps = cfg['cps']
+    names = [('m%04dh' % a, 'm%04dh' % b) for a, b in cps]
+    mo = ctx.model([[156, [cps]]])[0]
+    if mo == [-999]:
+        ctx.disagree('route=lookup;symptom=model_rejects_case', cfg, None, mo, 'wire format error', kind='tie')
+        return
+    want_err = ERR_NAMES[mo[1]] if mo[0] == 0 else None
+    try:
+        arrs = corrprod_to_autocorr(names)
+        got_err = None
+    except (KeyError, ValueError, TypeError, AssertionError) as e:
+        got_err = type(e).__name__
+    ctx.count('route=lookup')
+    ctx.count('lookup_kind=%s' % cfg['kind'])
+    ctx.count('lookup_outcome=%s' % (got_err or 'arrays'))
+    ctx.traces_validated += 1
+    ctx.note_case(cfg_key(cfg), nontrivial=got_err is None and len(cps) > 1,
+                  sample=dict(route='lookup', kind=cfg['kind'], n=len(cps), outcome=got_err or 'arrays'))
+    # the property: an answer only when every input has its autocorrelation, and then the LAST (a, a)
+    missing = any([x, x] not in cps for c in cps for x in c)
+    if got_err is None and (missing or not cps):
+        ctx.disagree('route=lookup;symptom=answers_without_auto', cfg, 'arrays', 'error',
+                     'corrprod_to_autocorr answered although an autocorrelation is missing / the list is empty')
+        return
+    if got_err != want_err:
+        ctx.disagree('route=lookup;symptom=outcome;impl=%s;model=%s' % (got_err or 'arrays', want_err or 'arrays'), cfg,
+                     got_err or 'arrays', want_err or 'arrays', 'corrprod_to_autocorr: outcome differs from the model', kind='tie')
+        return
+    if got_err is not None:
+        return
+    last = {}
+    for i, c in enumerate(cps):
+        if c[0] == c[1]:
+            last[c[0]] = i
+    ai = [int(x) for x in arrs[0]]
+    for which, arr in ((0, arrs[1]), (1, arrs[2])):
+        for k, c in enumerate(cps):
+            idx = int(arr[k])
+            if not (0 <= idx < len(ai)) or ai[idx] != last[c[which]]:
+                ctx.disagree('route=lookup;obs=index%d;vs=spec;size=%s;symptom=wrong_auto' % (which + 1, cfg['kind']), cfg,
+                             dict(k=k, index=idx, auto=ai[idx] if 0 <= idx < len(ai) else None), last[c[which]],
+                             'product %d: autocorrelation of input %d looked up at the wrong position' % (k, which + 1))
+                return
+    for nm, arr, m in zip(('auto_indices', 'index1', 'index2'), arrs, mo[1:]):
+        bits, vals = m
+        if [int(x) for x in arr] != vals:
+            ctx.disagree('route=lookup;obs=%s;vs=model;size=%s;symptom=wrong_values' % (nm, cfg['kind']), cfg,
+                         [int(x) for x in arr][:20], vals[:20], '%s differs from the model' % nm, kind='tie')
+            return
+        got_bits = arr.dtype.itemsize * 8 if arr.dtype.kind == 'u' else 0
+        if got_bits != bits:
+            ctx.disagree('route=lookup;obs=%s;symptom=dtype' % nm, cfg, str(arr.dtype), bits,
+                         '%s: dtype differs from the model of _narrow' % nm, kind='tie')
+            return
+
+
+# --------------------------------------------------------------------------- route store (constructor options, lost chunks, preselection)
+def gen_store(rng, force=None):
+    cfg = gen_vfw(rng, force)
+    cfg['route'] = 'store'
+    T, F, B = cfg['T'], cfg['F'], len(cfg['cps'])
+    r = rng.random()
+    cfg['mode'] = ('normal' if r < 0.72 else 'none' if r < 0.80 else 'none_unscaled' if r < 0.83 else 'badvv' if r < 0.87
+                   else 'wronglen' if r < 0.91 else 'default' if r < 0.95 else 'vv_none')
+    if cfg['mode'] in ('none', 'default'):
+        cfg['scaled'] = True
+        cfg['table'] = None
+    if cfg['mode'] == 'none_unscaled':
+        cfg['scaled'] = False
+        cfg['table'] = None
+    lost = {'correlator_data': [], 'weights': [], 'weights_channel': []}
+    if rng.random() < 0.55:
+        for _ in range(rng.randint(1, 3)):
+            nm = rng.choice(['correlator_data', 'correlator_data', 'weights', 'weights_channel'])
+            idx = [rng.randrange(len(c)) for c in cfg['chunks'][nm]]
+            if idx not in lost[nm]:
+                lost[nm].append(idx)
+    cfg['lost'] = lost
+    cfg['presel'] = None
+    if rng.random() < 0.35:
+        t0 = rng.randrange(T)
+        f0 = rng.randrange(F)
+        cfg['presel'] = [t0, rng.randint(1, T - t0), f0, rng.randint(1, F - f0)]
+        cfg['presel_open'] = [rng.random() < 0.3, rng.random() < 0.3]     # slice(None, stop) / slice(start, None) spelling
+    return cfg
+
+
+def _lose_chunks(tmp, cfg, info):
+    for nm, idxs in cfg['lost'].items():
+        for idx in idxs:
+            starts = [int(sum(c[:i])) for c, i in zip(info[nm]['chunks'], idx)]
+            fn = os.path.join(tmp, info[nm]['prefix'], nm, '_'.join('%05d' % s_ for s_ in starts) + '.npy')
+            if os.path.exists(fn):
+                os.remove(fn)
+
+
+def run_store(ctx, cfg):
+    import dask
+    from unittest import mock
+    from fixtures import v4
+    from katdal.vis_flags_weights import ChunkStoreVisFlagsWeights
+    cps = cfg['cps']
+    T, F, B = cfg['T'], cfg['F'], len(cps)
+    mode = cfg['mode']
+    scaled = bool(cfg['scaled'])
+    table = cfg.get('table')
+    names = [(cfg['labels'][a], cfg['labels'][b]) for a, b in cps]
+    mcps = cps
+    kw = dict(corrprods=names, stored_weights_are_scaled=scaled)
+    vvcode = 0
+    if table is not None:
+        kw['van_vleck'] = 'autocorr'
+        vvcode = 1
+    if mode in ('none', 'none_unscaled'):
+        kw['corrprods'] = None
+    elif mode == 'badvv':
+        kw['van_vleck'] = 'auto'
+        vvcode = 2
+    elif mode == 'wronglen':
+        mcps = cps[:-1] if len(cps) > 1 and cfg['T'] % 2 else cps + [cps[0]]
+        kw['corrprods'] = [(cfg['labels'][a], cfg['labels'][b]) for a, b in mcps]
+    elif mode == 'default':
+        kw = {}
+        vvcode = -1
+    elif mode == 'vv_none':
+        kw = dict(corrprods=None, stored_weights_are_scaled=scaled, van_vleck='autocorr')
+        vvcode = 1
+        if table is None:
+            table = cfg['table'] = None
+    pre = cfg.get('presel')
+    if pre is not None:
+        t0, tn, f0, fn = pre
+        op = cfg.get('presel_open', [False, False])
+        kw['preselect_index'] = (slice(None if (op[0] and t0 == 0) else t0, None if (op[1] and t0 + tn == T) else t0 + tn),
+                                 slice(f0, f0 + fn))
+        T2, F2 = tn, fn
+    else:
+        T2, F2 = T, F
+    tmp = v4.scratch_dir('c15s')
+    got_err = None
+    vis = wts = uns = None
+    rch = None
+    try:
+        store, info, arrays = build_store(cfg, tmp)
+        _lose_chunks(tmp, cfg, info)
+        try:
+            with dask.config.set(scheduler='sync'), np.errstate(all='ignore'):
+                if kw.get('van_vleck') == 'autocorr' and table is not None:
+                    xs, ys = table_arrays(table)
+                    with mock.patch('katdal.vis_flags_weights.autocorr_lookup_table', lambda levels, size=4000: (xs, ys)):
+                        vfw = ChunkStoreVisFlagsWeights(store, info, **kw)
+                        vis, wts = vfw.vis.compute(), vfw.weights.compute()
+                        uns = None if vfw.unscaled_weights is None else vfw.unscaled_weights.compute()
+                else:
+                    vfw = ChunkStoreVisFlagsWeights(store, info, **kw)
+                    vis, wts = vfw.vis.compute(), vfw.weights.compute()
+                    uns = None if vfw.unscaled_weights is None else vfw.unscaled_weights.compute()
+                rch = [list(vfw.vis.chunks[0]), list(vfw.vis.chunks[1])]
+        except (KeyError, ValueError, TypeError, AssertionError) as e:
+            got_err = type(e).__name__
+        except Exception as e:
+            ctx.disagree('route=store;mode=%s;symptom=raises;exc=%s' % (mode, type(e).__name__), cfg, repr(e)[:300], 'arrays or one of '
+                         'the four modelled exceptions', 'ChunkStoreVisFlagsWeights raised an unmodelled exception')
+            return
+    finally:
+        shutil.rmtree(tmp, ignore_errors=True)
+    ch = cfg['chunks']
+    wl = [[[[w, 0] for w in cell] for cell in row] for row in cfg['weights']]
+    wcl = [[lit_wire(x) for x in row] for row in cfg['wc']]
+    visl = [[[[lit_wire(c[0]), lit_wire(c[1])] for c in cell] for cell in row] for row in cfg['vis']]
+    lost = cfg['lost']
+    payload = [[] if (mode in ('none', 'none_unscaled', 'vv_none', 'default')) else [mcps], int(scaled), vvcode,
+               [] if table is None else table, B, visl, ch['correlator_data'], lost['correlator_data'],
+               wl, ch['weights'], lost['weights'], wcl, ch['weights_channel'], lost['weights_channel'],
+               [] if pre is None else pre, rch[0] if rch else [T2], rch[1] if rch else [F2]]
+    mo = ctx.model([[157, payload]])[0]
+    if mo == [-999]:
+        ctx.disagree('route=store;symptom=model_rejects_case', cfg, None, mo, 'wire format error', kind='tie')
+        return
+    want_err = ERR_NAMES[mo[1]] if mo[0] == 0 else None
+    ctx.count('route=store')
+    ctx.count('store_mode=%s' % mode)
+    ctx.count('store_outcome=%s' % (got_err or 'arrays'))
+    ctx.count('store_lost_chunks=%d' % sum(len(v) for v in lost.values()))
+    ctx.count('store_preselect=%s' % (pre is not None))
+    ctx.traces_validated += 1
+    n_lost = sum(len(v) for v in lost.values())
+    ctx.note_case(cfg_key(cfg), nontrivial=bool(got_err is None and (n_lost or pre is not None or mode != 'normal')),
+                  sample=dict(route='store', mode=mode, scaled=scaled, van_vleck=table is not None, lost=lost, presel=pre,
+                              outcome=got_err or 'arrays'))
+    if got_err != want_err:
+        # the property only demands: no ANSWER where the model has none (an answer with data is compared below)
+        kind = 'property' if got_err is None else 'tie'
+        ctx.disagree('route=store;mode=%s;symptom=outcome;impl=%s;model=%s' % (mode, got_err or 'arrays', want_err or 'arrays'),
+                     cfg, got_err or 'arrays', want_err or 'arrays',
+                     'ChunkStoreVisFlagsWeights(%s): outcome differs from the model' % ', '.join(sorted(kw)), kind=kind)
+        return
+    if got_err is not None:
+        return
+    if tuple(vis.shape) != (T2, F2, B) or tuple(wts.shape) != (T2, F2, B):
+        ctx.disagree('route=store;symptom=shape', cfg, list(vis.shape), [T2, F2, B], 'shape of vis / weights (preselection)')
+        return
+    m = dict(ok=True, vis=mo[1], weights=mo[2])
+    has_spec = len(mo) > 4
+    decl = 'scaled' if scaled else 'unscaled'
+    tag = 'store'
+    if (mo[3] == []) != (uns is None):
+        ctx.disagree('route=store;mode=%s;obs=unscaled;symptom=presence' % mode, cfg, uns is not None, mo[3] != [],
+                     'unscaled_weights is None / not None against the model')
+        return
+    scfg = dict(cfg, cps=mcps)
+    vis_l = [[[[lit(c.real), lit(c.imag)] for c in cell] for cell in row] for row in vis]
+    if has_spec:
+        m.update(unscaled=mo[3], spec_vis=mo[4], spec_weights=mo[5], spec_unscaled=mo[6])
+        lostsig = 'lost=%s' % ('+'.join(sorted(k[:3] for k, v in lost.items() if v)) or 'none')
+        r1 = _compare_ext_tagged(ctx, scfg, tag, 'weights', wts, m, vis_l, decl, lostsig, pre is not None)
+        r2 = _compare_ext_tagged(ctx, scfg, tag, 'unscaled', uns, m, vis_l, decl, lostsig, pre is not None)
+        compare_cx(ctx, scfg, tag, vis, m)
+    else:
+        # no corrprods: weights = stored product (model only; theorem ctor_without_corrprods), vis untouched
+        m2 = dict(m, spec_weights=mo[2], spec_vis=mo[1])
+        _compare_ext_tagged(ctx, scfg, tag, 'weights', wts, m2, vis_l, decl, 'nocorrprods', pre is not None)
+        compare_cx(ctx, scfg, tag, vis, m2)
+
+
+def _compare_ext_tagged(ctx, cfg, route, obs, impl, mres, vis_lits, decl, extra, presel):
+    """compare_ext with the loss / preselection class in the signature."""
+    ok = True
+    for side, key, kind in (('model', obs, 'tie'), ('spec', 'spec_' + obs, 'property')):
+        m = mres[key]
+        shape = (len(m), len(m[0]) if m else 0, len(m[0][0]) if m and m[0] else 0)
+        if tuple(impl.shape) != shape:
+            ctx.disagree('route=%s;obs=%s;vs=%s;symptom=shape' % (route, obs, side), cfg, list(impl.shape), list(shape),
+                         'shape of %s differs from the %s' % (obs, side), kind=kind)
+            return False
+        for t in range(shape[0]):
+            for f in range(shape[1]):
+                for b in range(shape[2]):
+                    mv = model_val(m[t][f][b])
+                    if same_val(impl[t, f, b], mv, ctx) is False:
+                        iv = impl_val(impl[t, f, b])
+                        sym = 'zero_weight' if iv == 0 else 'nan_weight' if iv == 'nan' else 'wrong_value'
+                        sig = 'route=%s;obs=%s;vs=%s;decl=%s;%s;presel=%s;symptom=%s' % (route, obs, side, decl, extra, presel, sym)
+                        ctx.disagree(sig, cfg, dict(at=[t, f, b], value=str(impl[t, f, b])), dict(at=[t, f, b], value=str(mv)),
+                                     '%s[%d,%d,%d] = %s but the %s says %s (%s stored weights, %s)'
+                                     % (obs, t, f, b, impl[t, f, b], side, mv, decl, extra), kind=kind)
+                        return False
+    return ok
+
 # --------------------------------------------------------------------------- route v4
 RATIOS = [(2.0, 0.5), (2.0, 1.0), (2.0, 2.0), (2.5, 1.0), (3.5, 1.0), (2.0, 0.75), (4.0, 1.5), (1.0, 0.25), (4.5, 1.0)]
 
@@ -1133,7 +1412,8 @@ def run_avg(ctx, cfg):
 
 
 # --------------------------------------------------------------------------- driver
-ROUTES = {'kernel': run_kernel, 'vfw': run_vfw, 'v4': run_v4, 'v3': run_v3, 'vv': run_vv, 'avg': run_avg}
+ROUTES = {'kernel': run_kernel, 'vfw': run_vfw, 'v4': run_v4, 'v3': run_v3, 'vv': run_vv, 'avg': run_avg,
+          'lookup': run_lookup, 'store': run_store}
 
 
 def run_case(ctx, cfg):
@@ -1166,8 +1446,12 @@ def run(ctx):
         return random.Random(ctx.rng.getrandbits(48))
     for _ in range(ctx.scale(250, 6000)):
         run_kernel(ctx, gen_kernel(sub()))
-    for _ in range(ctx.scale(160, 2500)):
+    for _ in range(ctx.scale(90, 1500)):
         run_vfw(ctx, gen_vfw(sub()))
+    for _ in range(ctx.scale(110, 2000)):
+        run_store(ctx, gen_store(sub()))
+    for _ in range(ctx.scale(16, 200)):
+        run_lookup(ctx, gen_lookup(sub()))
     for _ in range(ctx.scale(300, 8000)):
         run_avg(ctx, gen_avg(sub()))
     for _ in range(ctx.scale(30, 300)):
